@@ -267,7 +267,7 @@ func genChainWalk(r *rand.Rand, n int) []Step {
 		case 20:
 			st = append(st, Step{"a": "send", "u": u, "to": "zero", "d": pick(r, "uusdc", "uatom", "uelys", "uusdt"), "sz": pick(r, "one", "dust", "s1")})
 		case 24:
-			st = append(st, Step{"a": "lockAccount", "u": u, "to": pick(r, "zero", "zero", "mod:masterchef", "u4"), "d": pick(r, "uelys", "uusdc"), "amt": pick(r, "1", "1000")})
+			st = append(st, Step{"a": "lockAccount", "u": u, "to": pick(r, "zero", "zero", "mod:masterchef", "u4", "revenue:1", "revenue:2", "treasury:2"), "d": pick(r, "uelys", "uusdc"), "amt": pick(r, "1", "1000")})
 		case 21:
 			st = append(st, Step{"a": "spotOrder", "u": u, "type": pick(r, "LIMITSELL", "STOPLOSS"), "base": "uatom", "quote": "uusdc", "d": "uatom", "target": "uusdc", "sz": "s1", "mul": pick(r, "0.9", "1.1")})
 		case 22:
